@@ -124,7 +124,7 @@ def run(call):
         else:
             raise ValueError(op)
         g = [float(x) for x in got]
-        ok = len(g) == count and all(abs(a - b) < 1e-9 for a, b in zip(g, exp))
+        ok = len(g) == count and all(a == b or abs(a - b) < 1e-9 for a, b in zip(g, exp))     # (a == b: equal infinities)
         return {"kind": "return", "value": {"ok": ok, "got": g, "expected": [float(x) for x in exp], "groups": count}}
     except BaseException as ex:
         return {"kind": "raise", "exc": type(ex).__name__, "mro": [c.__name__ for c in type(ex).__mro__],
